@@ -3,8 +3,8 @@
    Print Assumptions.  Histories are arbitrary lists of operations ([brun g ops] = fold_left over
    [ops] from the empty pool); geometries are arbitrary ([geo_wf] is what net.ParseCIDR guarantees). *)
 From Coq Require Import NArith List.
-From Verif Require Import Base.Word Model.PoolMap Model.Geometry Model.PoolSpec Model.Bitmap
-  Proofs.GeometryProofs Proofs.BitmapProofs.
+From Verif Require Import Base.Word Model.PoolMap Model.Geometry Model.PoolSpec Model.Bitmap Model.Epoch
+  Proofs.GeometryProofs Proofs.BitmapProofs Proofs.EpochProofs.
 Import ListNotations.
 Local Open Scope N_scope.
 
@@ -42,13 +42,13 @@ Proof. exact bitmap_in_range. Qed.
 Print Assumptions C01_bitmap_in_range.
 
 Theorem C01_bitmap_stable : forall g ops h u, bholds g ops h u ->
-  step (brun g ops) (Alloc h) = (brun g ops, OUnit u, []) /\
-  step (brun g ops) (Lookup h) = (brun g ops, OUnit u, []).
+  Bitmap.step (brun g ops) (Alloc h) = (brun g ops, OUnit u, []) /\
+  Bitmap.step (brun g ops) (Lookup h) = (brun g ops, OUnit u, []).
 Proof. exact bitmap_stable. Qed.
 Print Assumptions C01_bitmap_stable.
 
 Theorem C01_bitmap_answer_is_held : forall g ops h u,
-  outp (brun g ops) (Alloc h) = OUnit u -> bholds g (ops ++ [Alloc h]) h u.
+  BitmapProofs.outp (brun g ops) (Alloc h) = OUnit u -> bholds g (ops ++ [Alloc h]) h u.
 Proof. exact bitmap_alloc_answer. Qed.
 Print Assumptions C01_bitmap_answer_is_held.
 
@@ -62,3 +62,46 @@ Proof.
   cbv zeta. split; [apply geo_wfb_ok; vm_compute; reflexivity|].
   split; [|split]; (eexists; split; [vm_compute; reflexivity|vm_compute; reflexivity]).
 Qed.
+
+(* ---------- epoch / lease allocator (allocator.EpochBitmapAllocator), every history ----------
+   [erun base ppl pl grace ops] is the state after any operation list, [EInv] its invariant
+   (EpochProofs.erun_inv : forall ..., EInv (erun ...)). *)
+Theorem C01_epoch_invariant : forall base ppl pl grace ops, EInv (erun base ppl pl grace ops).
+Proof. exact erun_inv. Qed.
+Print Assumptions C01_epoch_invariant.
+
+Theorem C01_epoch_unique : forall base ppl pl grace ops h1 h2 i,
+  aget h1 (e_subs (erun base ppl pl grace ops)) = Some i ->
+  aget h2 (e_subs (erun base ppl pl grace ops)) = Some i -> h1 = h2.
+Proof. exact epoch_unique_run. Qed.
+Print Assumptions C01_epoch_unique.
+
+(* a held slot is never the network (0) or broadcast (total-1) slot and lies below total; its address
+   is base + slot (C01_nocarry_is_addition) *)
+Theorem C01_epoch_in_range : forall base ppl pl grace ops h i,
+  aget h (e_subs (erun base ppl pl grace ops)) = Some i ->
+  0 < i /\ i + 1 < e_total (erun base ppl pl grace ops).
+Proof. exact epoch_in_range_run. Qed.
+Print Assumptions C01_epoch_in_range.
+
+(* asking again: same unit from Allocate and from Lookup, still held afterwards, lease renewed *)
+Theorem C01_epoch_stable : forall base ppl pl grace ops h i,
+  aget h (e_subs (erun base ppl pl grace ops)) = Some i ->
+  EpochProofs.outp (erun base ppl pl grace ops) (Alloc h) = OUnit (eunit (erun base ppl pl grace ops) i) /\
+  EpochProofs.outp (erun base ppl pl grace ops) (Lookup h) = OUnit (eunit (erun base ppl pl grace ops) i) /\
+  aget h (e_subs (EpochProofs.next (erun base ppl pl grace ops) (Alloc h))) = Some i /\
+  eage (EpochProofs.next (erun base ppl pl grace ops) (Alloc h)) i = 0.
+Proof. exact epoch_stable_run. Qed.
+Print Assumptions C01_epoch_stable.
+
+Theorem C01_epoch_answer_is_held : forall base ppl pl grace ops h u,
+  EpochProofs.outp (erun base ppl pl grace ops) (Alloc h) = OUnit u ->
+  exists i, aget h (e_subs (EpochProofs.next (erun base ppl pl grace ops) (Alloc h))) = Some i /\
+            u = eunit (erun base ppl pl grace ops) i.
+Proof. exact epoch_answer_run. Qed.
+Print Assumptions C01_epoch_answer_is_held.
+
+Example C01_epoch_nonvacuous :
+  let s := erun 167772160 29 32 1 [Alloc 1; Alloc 2; Advance; Renew 2; Release 1; Alloc 3; Advance] in
+  aget 2 (e_subs s) = Some 2 /\ aget 3 (e_subs s) = Some 1 /\ aget 1 (e_subs s) = None.
+Proof. vm_compute. split; [reflexivity|split; reflexivity]. Qed.
